@@ -127,7 +127,7 @@ fn open_and_dump(root: &Path, cfg: &CfgSpec) -> Result<View, String> {
 /// Checks one image in-process (a panic is caught; an abort kills the run child, in which case
 /// the pool reconstructs the failing crash point from the `progress` file written beforehand).
 /// Returns (0, "") if fine, (1, "class|message") otherwise.
-fn check_image(
+pub fn check_image(
     img: &simfs::Image,
     dir: &Path,
     cfg: &CfgSpec,
